@@ -1115,6 +1115,7 @@ impl<'a> World<'a> {
             None => return,
         };
         monitors::probe_attempt(self, "coord", &psbt);
+        monitors::utxo_lie_probe(self, "coord", &psbt);
         // the plan/complete gap: re-plan with the current adverts and clock at every attempt
         if self.mon.on("C17") || self.mon.on("C01") {
             let units = self.dec.choose(&format!("planunits:{}", self.stats.attempts), 2) == 1;
